@@ -70,6 +70,8 @@ def make_cfg(spec):
     if spec.get("iprint") is not None:
         # verbose tracing through a user-supplied logger: the code paths that format diagnostics run while the fault travels
         cfg.update(logger=True, iprint=spec["iprint"])
+    if int(spec["problem"]["seed"]) % 3 == 1:
+        cfg["reuse_value_buffer"] = True  # the objective hands its value back in a one-element array (accepted like a float)
     return cfg
 
 
@@ -145,7 +147,22 @@ def run(spec):
                 out.count("injections_inside_iteration")
                 keys.add(f"{P.spec['family']}/{P.spec['seed']}/{spec['mode']}/{kind}/{index}")
             # nothing left behind: identical fault-free call equals the fresh-process result
-            again = probes.run_min(P, cfg, hooks=dict(shared))
+            if kind in ("f", "g") and index in (0, 2):
+                # ... made from another thread (a worker pool whose task failed and is retried by another worker)
+                import threading
+
+                box = {}
+                th = threading.Thread(target=lambda: box.setdefault("tr", probes.run_min(P, cfg, hooks=dict(shared))), daemon=True)
+                th.start()
+                th.join(60.0)
+                out.count("clean_reruns_made_from_another_thread")
+                if th.is_alive() or "tr" not in box:
+                    out.violate("state_left_behind", f"{name}: after {etype.__name__} in {kind} call #{index} an identical fault-free call made from another thread "
+                                f"has not returned after 60 s (something the failed call holds is never released)", **tags)
+                    break
+                again = box["tr"]
+            else:
+                again = probes.run_min(P, cfg, hooks=dict(shared))
             out.count("clean_reruns_compared")
             if again.exc is not None or fresh.digest_state(again.snap) != want:
                 out.violate("state_left_behind", f"{name}: after {etype.__name__} in {kind} call #{index} an identical fault-free call "
